@@ -62,7 +62,7 @@ func explore(t *testing.T, r *ev.Run, prop string, cs []cell, domains map[string
 		r.Eval(1)
 		r.Count("external_calls_observed", int64(len(res.trace)))
 		r.Count("secrets_accounted", int64(res.secrets))
-		if res.fired > 0 {
+		if res.fired > 0 || res.delays > 0 {
 			r.Distinct(fmt.Sprintf("%s|%s|%s|%v", c.sc.name, c.cfg, c.op, fs))
 			r.Count("executions_with_fault_fired", 1)
 			if res.opErr != nil {
@@ -131,7 +131,7 @@ func TestC02(t *testing.T) {
 	r.Rule("for each cell (9 key states x {simple cache, no cache, lru cap-1 shared} x {encrypt}) a clean run records the trace of metastore and KMS calls of the operation under test; then EVERY call index gets every fault kind valid for it (Load/LoadLatest: error; Store: error-without-write, false-without-write, write-then-error, write-then-false; KMS: error) and, depth-first, every second fault at every later call of the faulted run. After each execution: record/err shape, IK row and SK row present in the raw store, a brand-new cache-less factory (crash model) decrypts the record, and once faults stop the next encrypt and the earlier records work on the same session. Distinct+non-trivial: (cell, fault plan) pairs in which a fault actually fired.")
 	r.Assume("virtual clock (testing/synctest) fixes creation stamps", "a crash is modelled by discarding the factory and reading only the metastore and the KMS", "partial writes inside a real database are out of reach")
 	cs := cells([]string{"simple", "nocache", "lru1-shared"}, []string{"enc"})
-	explore(t, r, "C02", cs, map[string]bool{"ms": true, "kms": true}, ev.Pick(35, 100))
+	explore(t, r, "C02", cs, map[string]bool{"ms": true, "kms": true, "aead": true}, ev.Pick(30, 100))
 	r.Finish(t)
 }
 
